@@ -21,7 +21,7 @@ LEVEL = "exploration"
 RULE = ("(family, parameters) from a fixed grid and Hypothesis draws inside the documented region (gauss sigma 0.5..mu, uniform "
         "integer bounds, schulz_zimm 1.05<=Mw/Mn<=2 and 50<=Mn<=5000, log_normal 1.02<=D<=3, poisson 1..2000, flory_schulz "
         "0.002<=a<=0.9); per case: normalisation, 12 interval-coherence queries, N draws (support, binned goodness of fit, mean), "
-        "text round-trip; plus a list of unknown / look-alike distribution names; non-trivial = case in which >=3 sub-oracles "
+        "every quantile of a scripted uniform stream (212 / 2012 grid points incl. both tails to 1e-7), text round-trip; plus a list of unknown / look-alike distribution names; non-trivial = case in which >=3 sub-oracles "
         "ran; distinct = (family, parameters)")
 ASSUMPTIONS = ["reference laws: norm, uniform, gamma(z, Mn/z) with z=Mn/(Mw-Mn), lognorm(sqrt(ln D), Mn/sqrt(D)), poisson, "
                "F(k)=1-(1-a)^k(1+ak) (scipy closed forms trusted)",
@@ -29,7 +29,7 @@ ASSUMPTIONS = ["reference laws: norm, uniform, gamma(z, Mn/z) with z=Mn/(Mw-Mn),
                "statistical sub-oracle: exact binomial per bin, alpha=1e-10 Bonferroni over bins and cases, rejection must repeat with an "
                "independent seed and twice the sample"]
 
-SIZES = {"quick": {"cases": 96, "draws": 1500}, "thorough": {"cases": 1600, "draws": 12000}}
+SIZES = {"quick": {"cases": 96, "draws": 1500, "quantiles": 200}, "thorough": {"cases": 1600, "draws": 12000, "quantiles": 2000}}
 ALPHA = 1e-10
 UNKNOWN = ["normal(100, 10)", "gaus(100, 10)", "gaussian(100, 10)", "gauss2(100, 10)", "uniformly(10, 20)", "poissonian(5)",
            "schulz_zimmer(1500, 1000)", "log_normal10(1000, 1.2)", "flory_schulz_zimm(0.1)", "weibull(1, 2)", "GAUSS(100, 10)",
@@ -81,7 +81,64 @@ def point(d, x):
     return float(d.prob_mw(x))
 
 
-def check_case(acc, fam, params, ndraw, seed):
+def quantile_grid(n):
+    """fine grid over (0, 1) with both tails: 1e-7 ... 1 - 1e-7"""
+    tails = [1e-7, 1e-6, 1e-5, 1e-4, 1e-3, 3e-3]
+    mid = [(i + 0.5) / n for i in range(n)]
+    return sorted(set(tails + [1 - t for t in tails] + mid))
+
+
+def check_quantiles(acc, d, ref, txt, case, sig, nq):
+    """(iii-b) every quantile of the draw: a scripted uniform stream (QuantileRNG) makes the draw the q-quantile of whatever
+    law the sampler realises; the reference law must agree:  F_ref(x) >= q > F_ref(x^-)  (discrete), |F_ref(x) - q| small
+    (continuous); and the object's own interval probability of (lo, x] must be coherent with q."""
+    fam = ref.family
+    if fam == "gauss" and ref.d is None:
+        return False
+    lo, hi = ref.support_lo(), ref.support_hi()
+    # the Schulz-Zimm law is the documented density sampled on the integers: its total is 1 + O(1/Mn) (same slack as in
+    # the normalisation oracle); the other discrete laws are exact
+    dq = (1.0 / ref.mn + 1e-9) if fam == "schulz_zimm" else 1e-9
+    F = ref.cdf_int if fam == "schulz_zimm" else ref.cdf
+    n_obs = 0
+    for q in quantile_grid(nq):
+        rng = probe.QuantileRNG(q)
+        try:
+            with probe.alarm(20):
+                x = float(d.draw_mw(rng))
+        except probe.Timeout:
+            acc.violation("quantile_raises", f"{txt}: the draw at quantile {q!r} of the uniform stream did not return within 20 s", case, {**sig, "error": "Timeout"})
+            return True
+        except Exception as exc:  # noqa: BLE001
+            acc.violation("quantile_raises", f"{txt}: the draw at quantile {q!r} of the uniform stream raised {exc!r}", case, {**sig, "error": type(exc).__name__})
+            return True
+        if not rng.used or rng.unscripted:
+            acc.count("quantile_stream_not_observable")  # the sampler uses a primitive the scripted stream does not know
+            return False
+        n_obs += 1
+        if not math.isfinite(x) or x < lo - 1e-9 or x > hi + 1e-9 or (ref.discrete and abs(x - round(x)) > 1e-9):
+            acc.violation("quantile_support", f"{txt}: the draw at quantile {q!r} is {x!r}: not finite / outside the support [{lo}, {hi}]", case, sig)
+            return True
+        if ref.discrete:
+            up, dn = F(x), F(x - 1)
+            if fam == "schulz_zimm" and q > 1 - 2 * dq and up > 1 - 1e-12:
+                acc.count("schulz_zimm_top_quantile_beyond_total_mass")  # q above the un-normalised total: within the stated slack
+                continue
+            if up < q - dq or dn > q + dq:
+                acc.violation("quantile_law", f"{txt}: the draw at quantile q={q!r} is {x!r}, but the documented law has F({x!r})={up!r}, "
+                              f"F({x - 1!r})={dn!r} (need F(x) >= q > F(x-1), tolerance {dq:.3g})", case, sig)
+                return True
+        else:
+            up = F(x)
+            tol = 1e-6 + 1e-6 * min(q, 1 - q)
+            if abs(up - q) > tol:
+                acc.violation("quantile_law", f"{txt}: the draw at quantile q={q!r} is {x!r}, but the documented law has F({x!r})={up!r}", case, sig)
+                return True
+    acc.count("scripted_quantile_draws", n_obs)
+    return n_obs > 0
+
+
+def check_case(acc, fam, params, ndraw, seed, nq=200):
     import gbigsmiles
 
     txt = text_of(fam, params)
@@ -190,6 +247,8 @@ def check_case(acc, fam, params, ndraw, seed):
         if ref.std > 0 and abs(m - ref.mean) > 8 * ref.std / math.sqrt(res["n"]) + (0.6 if fam == "schulz_zimm" else 1e-9):
             acc.violation("draw_mean", f"{txt}: sample mean {m:.6g} of {res['n']} draws, documented mean {ref.mean:.6g} (8 sigma/sqrt(N) = {8 * ref.std / math.sqrt(res['n']):.3g})", case, sig)
         ran += 1
+    if check_quantiles(acc, d, ref, txt, case, sig, nq):
+        ran += 1
     acc.case((fam, tuple(params)) if ran >= 3 else None, labels=["fam:" + fam, f"suboracles:{ran}"])
     if acc.evaluations % 2 == 0:
         acc.sample({"distribution": txt, "sub_oracles_run": ran, "draws": res["n"], "sample_mean": float(np.mean(res["x"])) if res["n"] else None,
@@ -293,8 +352,8 @@ def run_shard(cfg):
     # fixed grid, spread over the shards
     for i, (fam, params) in enumerate(GRID):
         if i % cfg["nshards"] == cfg["shard"]:
-            check_case(acc, fam, params, sz["draws"], cfg["seed"] % 100000 + i)
-    drive(st.tuples(dist_case(), st.integers(0, 2**31 - 1)), lambda x: check_case(acc, x[0][0], x[0][1], sz["draws"], x[1]), n, cfg["seed"])
+            check_case(acc, fam, params, sz["draws"], cfg["seed"] % 100000 + i, sz["quantiles"])
+    drive(st.tuples(dist_case(), st.integers(0, 2**31 - 1)), lambda x: check_case(acc, x[0][0], x[0][1], sz["draws"], x[1], sz["quantiles"]), n, cfg["seed"])
     if cfg["shard"] == 0:
         for name in UNKNOWN:
             acc.case(("unknown", name), labels=["unknown_name"])
@@ -318,5 +377,5 @@ def replay(case, rec):
         except Exception:  # noqa: BLE001
             pass
         return acc
-    check_case(acc, case["family"], tuple(case["params"]), 3000, case["seed"])
+    check_case(acc, case["family"], tuple(case["params"]), 3000, case["seed"], 2000)
     return acc
